@@ -12,9 +12,8 @@ structure QUnit where
 def QUnit.name (q : QUnit) : Str := fileName q.path
 def QUnit.ty (q : QUnit) : Str := extension q.name
 
-def prio (ty : Str) : Nat :=
-  if ty == s "image" then 1 else if ty == s "network" || ty == s "volume" then 2 else if ty == s "build" then 3
-  else if ty == s "container" || ty == s "kube" then 4 else if ty == s "pod" then 5 else 1000
+/-- the `sorting_priority` table of `process` (extracted); unknown types sort last -/
+def prio (ty : Str) : Nat := (Gen.sortingPriority.lookup ty).getD 1000000
 
 def containerResourceName (name : Str) (u : SUnit) (serviceName : Str) : Str :=
   let n := containerName name u
@@ -47,8 +46,8 @@ def sortByPrio (qs : List QUnit) : List QUnit := qs.foldl (fun acc q => insertBy
 
 inductive Out | ok (svc : SUnit) | err (e : Err) | outOfModel
 
-def convertStep (t : Tbl) (q : QUnit) : Tbl × Out :=
-  let E : Env := { info := t.get, pathExists := fun p => p == s "/dev/null" }
+def convertStepU (isUser : Bool) (t : Tbl) (q : QUnit) : Tbl × Out :=
+  let E : Env := { info := t.get, isUser := isUser, pathExists := fun p => p == s "/dev/null" }
   let ty := q.ty
   if ty == s "image" then match fromImage E q.path q.unit with
     | .ok (svc, r) => (t.setRes q.name r, .ok svc) | .error e => (t, .err e)
@@ -77,6 +76,8 @@ def convertStep (t : Tbl) (q : QUnit) : Tbl × Out :=
     | some (.error e) =>
       -- handle_pod records the container before the remaining steps; nothing after it can fail except add_raw
       (t, .err e)
+
+def convertStep (t : Tbl) (q : QUnit) : Tbl × Out := convertStepU false t q
 
 def processUnits (qs : List QUnit) : List (QUnit × Out) :=
   let t0 : Tbl := { infos := qs.map fun q => (q.name, prefill q), toStart := [] }
